@@ -139,6 +139,7 @@ type Block struct {
 	ResTypes   []string
 	Target     *ssa.Function
 	IsGhostDecl bool // the block documents a real (ghost) function declaration in the contract file
+	Extern      string // import path of the dependency package whose function this (assumed) contract describes
 }
 
 func (b *Block) QualName() string {
@@ -157,7 +158,11 @@ func (b *Block) qualNameBase() string {
 		}
 	}
 	if b.RecvType != "" {
-		return short + "." + strings.TrimPrefix(b.RecvType, "*") + "." + b.FuncName
+		rt := strings.TrimPrefix(b.RecvType, "*")
+		if b.Extern != "" {
+			rt = rt[strings.LastIndex(rt, ".")+1:]
+		}
+		return short + "." + rt + "." + b.FuncName
 	}
 	return short + "." + b.FuncName
 }
@@ -397,6 +402,9 @@ func parseBlocks(fset *token.FileSet, path string, src []byte, pkgPath string) (
 		flush := func() {
 			if cur != nil {
 				cur.PkgName = f.Name.Name
+				if cur.Extern != "" {
+					cur.PkgName = cur.Extern[strings.LastIndex(cur.Extern, "/")+1:]
+				}
 				blocks = append(blocks, cur)
 			}
 			cur = nil
@@ -444,6 +452,16 @@ func parseBlocks(fset *token.FileSet, path string, src []byte, pkgPath string) (
 				}
 				// the clause functions take the closure's parameters and captures, not the outer function's
 				cur.ParamNames, cur.ParamTypes, cur.ResNames, cur.ResTypes = nil, nil, nil, nil
+				continue
+			}
+			if word == "extern" {
+				// //@ extern <import path> func <signature, types qualified as in this file>
+				flush()
+				ipath, sig := splitWord(rest)
+				cur = &Block{Header: sig, Pkg: pkgPath, File: path, Line: line, Loops: map[int]*LoopSpec{}, Flags: map[string]bool{"trusted": true}, Extern: ipath}
+				if err := parseHeader(cur); err != nil {
+					return nil, fmt.Errorf("%s:%d: %v", path, line, err)
+				}
 				continue
 			}
 			if word == "func" {
@@ -1025,6 +1043,9 @@ func Load(repo string, patterns []string) (*Loaded, error) {
 			if pkg == nil {
 				return nil, fmt.Errorf("%s:%d: package %s not loaded", b.File, b.Line, b.Pkg)
 			}
+			if b.Extern != "" {
+				continue
+			}
 			obj, fdecl := findFuncDecl(pkg, b)
 			if obj == nil {
 				return nil, fmt.Errorf("%s:%d: contract target not found: %s", b.File, b.Line, b.Header)
@@ -1440,6 +1461,31 @@ func findCalleeSig(pkg *packages.Package, byPath map[string]*packages.Package, n
 }
 
 func lookupFunc(prog *ssa.Program, sp *ssa.Package, b *Block) *ssa.Function {
+	if b.Extern != "" {
+		var ext *ssa.Package
+		for _, p := range prog.AllPackages() {
+			if p.Pkg.Path() == b.Extern {
+				ext = p
+			}
+		}
+		if ext == nil {
+			return nil
+		}
+		if b.RecvType == "" {
+			return ext.Func(b.FuncName)
+		}
+		tname := strings.TrimPrefix(b.RecvType, "*")
+		tname = tname[strings.LastIndex(tname, ".")+1:]
+		tn, ok := ext.Pkg.Scope().Lookup(tname).(*types.TypeName)
+		if !ok {
+			return nil
+		}
+		m, _, _ := types.LookupFieldOrMethod(types.NewPointer(tn.Type()), true, ext.Pkg, b.FuncName)
+		if fn, ok := m.(*types.Func); ok {
+			return prog.FuncValue(fn)
+		}
+		return nil
+	}
 	if b.RecvType == "" {
 		name := b.FuncName
 		// anonymous functions: "outer$1" or "Recv.outer$1" are resolved by the caller
